@@ -518,18 +518,21 @@ fn newline(args: &[String]) {
         texts.extend(next.iter().cloned());
         frontier = next;
     }
-    let raws = ["", "x\n", "x\r\n", "\n", "\r\nx\n", "xx", "x\ny\r\n"];
+    // (the last two: a first line that ends in CR CR LF, a lone CR before the first LF)
+    let raws = ["", "x\n", "x\r\n", "\n", "\r\nx\n", "xx", "x\ny\r\n", "x\r\r\ny\n", "\rx\r\n"];
     for (n, t) in texts.iter().enumerate() {
         let text = render(t);
         let raw = raws[n % raws.len()];
         let win = verif::apply_newline_style(NewlineStyle::Windows, &text, raw);
         let unix = verif::apply_newline_style(NewlineStyle::Unix, &text, raw);
         let auto = verif::apply_newline_style(NewlineStyle::Auto, &text, raw);
+        let native = verif::apply_newline_style(NewlineStyle::Native, &text, raw);
         writeln!(
             out,
             "{}",
             json!({"text": t.iter().map(|&i| syms[i]).collect::<Vec<_>>(), "win": abstr(&win),
-                   "unix": abstr(&unix), "auto_out": abstr(&auto), "raw": abstr(raw)})
+                   "unix": abstr(&unix), "auto_out": abstr(&auto), "native": abstr(&native),
+                   "windows_host": cfg!(windows), "raw": abstr(raw)})
         )
         .unwrap();
     }
